@@ -18,9 +18,10 @@ from harness import nswire
 from harness.common import rat, wl, lean_list, lean_str, corpus_cases
 
 PID = 'C13'
-MODULES = ['NoteSeqVerif.Props.C13']
+MODULES = ['NoteSeqVerif.Props.C13', 'NoteSeqVerif.Props.C13_repeat', 'NoteSeqVerif.Props.C13_interp']
 EXE = 'drv_c13'
-THEOREMS = ['NSV.C13.' + t for t in (
+_P, _PR, _PI = MODULES
+THEOREMS = [(_P, 'NSV.C13.' + t) for t in (
     'shift_spec shift_error_iff stretch_spec stretch_one stretch_error_iff '
     'remove_redundant_in_effect remove_redundant_drops_only_repeats remove_redundant_frame dedup_keeps_first '
     'concat_ok_iff concat_spec concat_pieces concat_offsets_exact_durations concat_offsets_exact_totals concat_errors '
@@ -28,7 +29,16 @@ THEOREMS = ['NSV.C13.' + t for t in (
     'interp_knots interp_clamps interp_monotone interp_range interp_divisor_pos '
     'rectify_no_beats_iff rectify_quantized rectify_spec rectify_beats_land '
     'expand_no_groups sections_in_group expand_spec expand_sections expand_spans expand_lookup '
-    'repeat_spec repeat_count_exact repeat_offsets_exact').split()]
+    'repeat_spec repeat_count_exact repeat_offsets_exact').split()] + [
+    # Props/C13_repeat.lean: the result of repeat = the cyclic copies cut at D (C02's closed form composed)
+    (_PR, 'NSV.C13.' + t) for t in (
+    'repeat_notes repeat_events repeat_copies repeat_copies_exact repeat_notes_exact repeat_count_bounds '
+    'repeat_cyclic_copies_ordered repeatCyclicCopies_partial repeat_ok_exact '
+    'repeatCyclicCopies_needs_nonneg_starts').split()] + [
+    # Props/C13_interp.lean: float np.interp for every Rounding R; exact cross-knot monotonicity refuted for rne53
+    (_PI, 'NSV.C13.' + t) for t in (
+    'interp_monotone_within_segment interp_ge_knot interp_range_float interp_monotone_approx '
+    'interp_not_monotone_rne53 interp_monotone_fails_for_some_rounding rectify_raises_on_increasing_beats').split()]
 
 EV = ['time_signatures', 'key_signatures', 'tempos', 'pitch_bends', 'control_changes',
       'text_annotations', 'section_annotations']
